@@ -1,0 +1,28 @@
+//go:build verif
+
+package nebula
+
+import (
+	"log/slog"
+	"net/netip"
+)
+
+// Thin exports for the verification harness (engine `lighthouse`, learned-address gate). No behaviour.
+
+// VerifLHRoam runs the real Interface.handleHostRoaming for a hostinfo of the peer `vpnAddrs` whose remote list
+// is the lighthouse's (QueryCache) and whose current remote is `cur` (invalid = none), on a packet that arrived
+// from `from`. It returns the hostinfo's remote afterwards.
+func VerifLHRoam(lh *LightHouse, l *slog.Logger, vpnAddrs []netip.Addr, cur netip.AddrPort, from netip.AddrPort, relayed bool) netip.AddrPort {
+	f := &Interface{lightHouse: lh, l: l}
+	hi := &HostInfo{vpnAddrs: vpnAddrs, remotes: lh.QueryCache(vpnAddrs)}
+	if cur.IsValid() {
+		hi.remote.Store(&cur)
+	}
+	f.handleHostRoaming(hi, ViaSender{UdpAddr: from, IsRelayed: relayed})
+	return hi.GetRemote()
+}
+
+// VerifLHAddCalculated calls addCalculatedRemotes.
+func VerifLHAddCalculated(lh *LightHouse, vpnAddr netip.Addr) bool {
+	return lh.addCalculatedRemotes(vpnAddr)
+}
